@@ -1,7 +1,9 @@
 package lint
 
 import (
+	"os"
 	"fmt"
+	"go/ast"
 	"go/constant"
 	"go/token"
 	"go/types"
@@ -63,9 +65,24 @@ type SQLSite struct {
 	FormatHoles int // caller text interpolated into a Sprintf format string
 	XformHoles  int // text that went through a function outside the package before it reached the statement
 	XformBy     string
-	IsSchema    bool   // executes the embedded schema script
-	evalFrame   *frame // when set, positional bindings are evaluated in this calling context
+	IsSchema    bool              // executes the embedded schema script
+	evalFrame   *frame            // when set, positional bindings are evaluated in this calling context
 	posVia      map[int]*ssa.Call // positional arguments that an accessor of the package packed into the slice
+	posFr       map[int]*frame    // positional arguments with a frame of their own (statement helpers, see rehome)
+	Helper      *ssa.Function     // for a re-homed site: the helper that actually executes the statement
+	Text        ssa.Value         // for a re-homed site: the statement text handed to the helper at this call
+}
+
+// textArg: the value that holds the statement text at the site's call.
+func (s *SQLSite) textArg() ssa.Value {
+	if s.Text != nil {
+		return s.Text
+	}
+	args := s.Call.Common().Args
+	if s.Call.Common().IsInvoke() {
+		return args[0]
+	}
+	return args[1]
 }
 
 func (s *SQLSite) key(m *Model, v *Variant) string {
@@ -100,6 +117,9 @@ func (s *SQLSite) bindingFor(p *sqlp.Expr) (Binding, bool) {
 		}
 		if via := s.posVia[p.Param-1]; via != nil {
 			fr = fr.inline(via, via.Common().StaticCallee())
+		}
+		if pf := s.posFr[p.Param-1]; pf != nil {
+			fr = rerootFrame(pf, fr)
 		}
 		return Binding{V: s.Positional[p.Param-1], Fr: fr}, true
 	}
@@ -143,6 +163,10 @@ func (m *Model) collectSites() {
 				m.foldSite(site, args)
 				site.Classes = map[HandleClass]bool{}
 				m.classifyHandle(recv, topFrame(fn), site.Classes, map[ssa.Value]bool{}, 0)
+				if clones := m.rehome(site, args); clones != nil {
+					m.Sites = append(m.Sites, clones...)
+					continue
+				}
 				m.Sites = append(m.Sites, site)
 			}
 		}
@@ -640,4 +664,166 @@ func (m *Model) prefixArgs(v ssa.Value, fn *ssa.Function) []ssa.Value {
 		return nil
 	}
 	return initial
+}
+
+// rerootFrame rebuilds frame chain pf (rooted at topFrame(G)) on top of `root`, another frame of G
+// (a calling context chosen by a rule).
+func rerootFrame(pf, root *frame) *frame {
+	if pf == nil || pf.caller == nil {
+		return root
+	}
+	return &frame{fn: pf.fn, caller: rerootFrame(pf.caller, root), call: pf.call, depth: pf.depth, recv: pf.recv}
+}
+
+// rehome: a statement helper - an unexported function of the package that executes the statement
+// text it is handed as a string parameter (`func (c *Collection) docExec(q queryable, stmt string,
+// key string, more ...any)`). Seen from inside the helper the text is unknown. Instead of one site
+// in the helper the model gets one site per call of the helper, placed AT that call (Fn = the
+// caller, Call = the helper call, whose results have the shape of Exec's / QueryRow's), with the
+// text folded and the arguments resolved in the frame of that call. nil if the site is not of
+// this kind or some call cannot be resolved (the site then stays where it is and is reported).
+func (m *Model) rehome(site *SQLSite, args []ssa.Value) (res []*SQLSite) {
+	dbgNil := func(i int) []*SQLSite {
+		if os.Getenv("RL_DBG") != "" {
+			fmt.Fprintln(os.Stderr, "DBG rehome fail", site.Fn, i)
+		}
+		return nil
+	}
+	h := site.Fn
+	if os.Getenv("RL_DBG") != "" {
+		defer func() { fmt.Fprintln(os.Stderr, "DBG rehome", h, site.Holes, len(res)) }()
+	}
+	if site.Holes == 0 || site.IsSchema || len(args) == 0 || h.Parent() != nil || ast.IsExported(h.Name()) {
+		return dbgNil(1)
+	}
+	p, ok := stripConv(args[0]).(*ssa.Parameter)
+	if !ok || p.Parent() != h {
+		return dbgNil(2)
+	}
+	// the helper's results must be the statement's own results (so that Scan / RowsAffected link up)
+	if cv := site.Call.Value(); cv != nil {
+		for _, ret := range returnsOf(h) {
+			okRet := false
+			for _, rv := range ret.Results {
+				if rv == ssa.Value(cv) {
+					okRet = true
+				}
+				if ex, isEx := rv.(*ssa.Extract); isEx && ex.Tuple == ssa.Value(cv) {
+					okRet = true
+				}
+			}
+			if !okRet {
+				return dbgNil(3)
+			}
+		}
+	}
+	callers := m.staticCallersOf(h)
+	if len(callers) == 0 {
+		return dbgNil(4)
+	}
+	var out []*SQLSite
+	for _, c := range callers {
+		if _, isCall := c.(*ssa.Call); !isCall {
+			return dbgNil(5)
+		}
+		g := c.Parent()
+		fr := topFrame(g).inline(c, h)
+		ev := newStrEval(m)
+		texts, ok := ev.eval(args[0], fr)
+		if !ok || ev.holes > 0 || len(texts) == 0 {
+			return dbgNil(6)
+		}
+		clone := &SQLSite{Call: c, Fn: g, Method: site.Method, Recv: site.Recv, Named: map[string]Binding{}, Helper: h, posFr: map[int]*frame{}}
+		if tv, _, ok := fr.actual(p); ok {
+			clone.Text = tv
+		}
+		if rp, isP := stripConv(site.Recv).(*ssa.Parameter); isP && rp.Parent() == h {
+			if av, _, ok := fr.actual(rp); ok {
+				clone.Recv = av
+			}
+		}
+		for _, t := range texts {
+			v := &Variant{SQL: t}
+			v.Stmts, v.Err = sqlp.ParseScript(t)
+			clone.Variants = append(clone.Variants, v)
+		}
+		if len(args) > 1 {
+			elems, ok := m.sliceElems(args[1], fr, 0)
+			if !ok {
+				return dbgNil(7)
+			}
+			for _, el := range elems {
+				sv := stripConv(el.V)
+				if call, isCall := sv.(*ssa.Call); isCall {
+					if f := call.Common().StaticCallee(); f != nil && f.Pkg != nil && f.Pkg.Pkg.Path() == "database/sql" && f.Name() == "Named" {
+						if cst, isC := call.Common().Args[0].(*ssa.Const); isC && cst.Value != nil && cst.Value.Kind() == constant.String {
+							clone.Named[constant.StringVal(cst.Value)] = Binding{V: call.Common().Args[1], Fr: el.Fr}
+							clone.Positional = append(clone.Positional, nil)
+							continue
+						}
+					}
+				}
+				clone.posFr[len(clone.Positional)] = el.Fr
+				clone.Positional = append(clone.Positional, el.V)
+			}
+		}
+		clone.Classes = map[HandleClass]bool{}
+		m.classifyHandle(clone.Recv, topFrame(g), clone.Classes, map[ssa.Value]bool{}, 0)
+		out = append(out, clone)
+	}
+	return out
+}
+
+// sliceElems lists the elements of an argument slice that is put together from literals,
+// appends, parameters (resolved through the frame) and straight-line packing helpers.
+func (m *Model) sliceElems(v ssa.Value, fr *frame, depth int) (rb []Binding, rok bool) {
+	if depth > 6 {
+		return nil, false
+	}
+	v = stripConv(v)
+
+	switch x := v.(type) {
+	case *ssa.Const:
+		return nil, x.Value == nil
+	case *ssa.Slice:
+		vals, dyn := varargValues(x)
+		if dyn {
+			return nil, false
+		}
+		var out []Binding
+		for _, e := range vals {
+			out = append(out, Binding{V: e, Fr: fr})
+		}
+		return out, true
+	case *ssa.MakeSlice:
+		// make([]any, 0, n): empty, to be appended to
+		if c, ok := x.Len.(*ssa.Const); ok && c.Value != nil && c.Int64() == 0 {
+			return nil, true
+		}
+		return nil, false
+	case *ssa.Parameter:
+		if fr == nil {
+			return nil, false
+		}
+		av, afr, ok := fr.actual(x)
+		if !ok {
+			return nil, false
+		}
+		return m.sliceElems(av, afr, depth+1)
+	case *ssa.Call:
+		if bi, ok := x.Common().Value.(*ssa.Builtin); ok && bi.Name() == "append" && len(x.Common().Args) == 2 {
+			a, ok1 := m.sliceElems(x.Common().Args[0], fr, depth+1)
+			b, ok2 := m.sliceElems(x.Common().Args[1], fr, depth+1)
+			if !ok1 || !ok2 {
+				return nil, false
+			}
+			return append(append([]Binding{}, a...), b...), true
+		}
+		if fr != nil && x.Parent() == fr.fn {
+			if rv, rfr := m.accessorResultX(x, 0, fr, true); rv != nil {
+				return m.sliceElems(rv, rfr, depth+1)
+			}
+		}
+	}
+	return nil, false
 }
